@@ -346,7 +346,7 @@ class MapVal:
             k = z3.Const(fresh_name("k"), self.kty.sort())
             n = z3.Length(self.keys)
             heavy.append(z3.ForAll([i], z3.Implies(z3.And(0 <= i, i < n), z3.Select(self.dom, self.keys[i]))))
-            heavy.append(z3.ForAll([k], z3.Implies(z3.Select(self.dom, k), z3.Contains(self.keys, z3.Unit(k)))))
+            heavy.append(z3.ForAll([k], z3.Implies(z3.Select(self.dom, k), z3.Exists([j], z3.And(0 <= j, j < n, self.keys[j] == k)))))
             heavy.append(z3.ForAll([i, j], z3.Implies(z3.And(0 <= i, i < j, j < n), self.keys[i] != self.keys[j])))
             if self.card is not None:
                 light.append(self.card == n)
